@@ -205,7 +205,7 @@ def coqc_eval(vfile_text, name, timeout=600):
         return False, "coqc timed out"
     finally:
         pass
-    for ext in (".vo", ".vok", ".vos", ".glob"):
+    for ext in (".v", ".vo", ".vok", ".vos", ".glob"):
         try:
             os.remove(os.path.join(d, name + ext))
         except FileNotFoundError:
